@@ -318,6 +318,8 @@ def run_batch(chk, cases, via_binary=False):
         if unparsed or [a for a in anomalies if 'CodingKeys' in a]:
             chk.count(f'extractor_unparsed_{lang}')
             chk.notes.append(f'extractor: {lang} seed {prog.seed}: {unparsed[:2]} {anomalies[:2]}') if len(chk.notes) < 10 else None
+        if unparsed and io != obs_model(lang, m[1]) and chk.unreadable(lang, payload, unparsed):
+            continue          # the real text has lines the extractor cannot read AND the observation differs from the model's: not judgeable
         same_obs = io == mo
         if not same_obs:
             chk.count(f'obs_mismatch_{lang}')
@@ -481,6 +483,8 @@ def run_ir_batch(chk, n):
         if r['impl'][1] != r['model'][1]:
             chk.count(f'render_drift_{lang}')
         mo = obs_model(lang, m[1])
+        if unparsed and io != mo and chk.unreadable(lang, payload, unparsed):
+            continue
         pre = cfg.get('prefix', '') if lang in ('kotlin', 'swift') else ''
         for st in items['structs']:
             eg = [[f['id']['renamed'] for f in st['fields']]]
